@@ -1,7 +1,7 @@
 CONSTANTS
   Variant = "retry_dt_local"
   Family = "render"
-  Size = "q"
+  Size = "m"
 INIT Init
 NEXT Next
 CHECK_DEADLOCK FALSE
